@@ -136,8 +136,14 @@ struct MonT : PostLogT<PoolOf<PP>>, momo::stdish::unsynchronized_pool_allocator<
 	}
 	template<class U> MonT(const MonT<U, PP>& o) noexcept : PostLog(), P((G().pre(), static_cast<P>(static_cast<const PAU<U>&>(o))))
 	{ hid = G().nh++; G().ev("R " + std::to_string(o.hid) + " " + vt(), "- " + tail() + " 1 1 1"); }
-	MonT(SoccTag, const MonT& o) : PostLog(), P((G().pre(), o.P::select_on_container_copy_construction()))
+	MonT(SoccTag, const MonT& o)
+	try : PostLog(), P((G().pre(), o.P::select_on_container_copy_construction()))
 	{ hid = G().nh++; G().ev("S " + std::to_string(o.hid), "- " + tail() + " 1 1 1"); }
+	catch (const std::bad_alloc&)
+	{	// allocate_shared of the new pool failed: event Z (OpSoccFail), state of the SOURCE's pool; the exception is rethrown
+		Tracer& g = G(); ++g.n_fail_events;
+		g.ev("Z " + std::to_string(o.hid), "E " + Tracer::pool_state(o.mMemPool) + " " + std::to_string(g.allocs()) + " " + std::to_string(g.frees()) + " 1 1 1");
+	}
 	MonT& operator=(const MonT& o) noexcept
 	{
 		G().pre();
